@@ -266,7 +266,8 @@ def run(ck, ix, tier):
     fn = fi.node
     # by role: one true division; what reaches its i-th position is the i-th parameter, cast to the registry's
     # non_int_type exactly when it is an int - by re-binding the parameter under the test or by a conditional expression
-    tds = [c for c in walk_local(fn) if isinstance(c, ast.Call) and norm(c.func) in ("operator.truediv", "truediv") and len(c.args) == 2]
+    tds = [list(c.args) for c in walk_local(fn) if isinstance(c, ast.Call) and norm(c.func) in ("operator.truediv", "truediv") and len(c.args) == 2 and not c.keywords]
+    tds += [[b_.left, b_.right] for b_ in walk_local(fn) if isinstance(b_, ast.BinOp) and isinstance(b_.op, ast.Div)]      # `x / y` is the same division
     operands = [a_.arg for a_ in fn.args.args][1:3]
 
     def casts_int(p_, arg):
@@ -284,7 +285,7 @@ def run(ck, ix, tier):
             elif not (norm(v) == p_ and (rebinds or any(is_int(a_) and t_ is False for a_, t_ in facts))):
                 return False
         return seen
-    okt = len(tds) == 1 and len(operands) == 2 and all(casts_int(p_, x) for p_, x in zip(operands, tds[0].args))
+    okt = len(tds) == 1 and len(operands) == 2 and all(casts_int(p_, x) for p_, x in zip(operands, tds[0]))
     ck.check(okt, "G-PROV", "PlainQuantity._truedivide_cast_int|casts-ints-to-non_int_type", fi.loc(),
              "ints are cast to non_int_type before dividing", "_truedivide_cast_int no longer casts both int operands to the registry's non_int_type")
 
@@ -321,7 +322,13 @@ def run(ck, ix, tier):
         # by role: where `other` is not a quantity of this registry, the operator is applied only to a zero/NaN number or
         # by a dimensionless quantity; what is left (dimensional quantity, non-zero number) raises
         combos = [c for c in walk_local(fn) if isinstance(c, ast.Call) and isinstance(c.func, ast.Name) and c.func.id == "op" and shape.holds_at(c, fn, checked, False)]
-        unguarded = [c for c in combos if not (shape.holds_at(c, fn, zero, True) or shape.holds_at(c, fn, dimless, True))]
+        # ... on every path: a combination placed after the if/elif/else that selects the operands is still reached only
+        # over an edge on which one of the two conditions holds (the remaining edge raises)
+        safe = shape.guard_edges(cfg, zero, True) + shape.guard_edges(cfg, dimless, True)
+        def reached_unguarded(c):
+            at = nodes_with(cfg, lambda x: x is c)
+            return not at or shape.reachable_without(cfg, live(cfg, at), safe) is not None
+        unguarded = [c for c in combos if not (shape.holds_at(c, fn, zero, True) or shape.holds_at(c, fn, dimless, True)) and reached_unguarded(c)]
         ck.check(bool(combos) and not unguarded, "G-DOM", f"{q}|bare-number-guards-present", fi.loc(unguarded[0]) if unguarded else fi.loc(), "bare numbers guarded by zero_or_nan / dimensionless",
                  "the zero_or_nan / dimensionless guards for bare numbers are gone" + (f": `{norm(unguarded[0])[:80]}` combines the magnitude with a bare number that is neither zero/NaN nor met by a dimensionless quantity" if unguarded else ""))
         for d, lab in sorted(set(shape.guard_edges(cfg, dimless, False))):
